@@ -251,6 +251,37 @@ func (e *Engine) yield(g *G) {
 	e.park(g)
 }
 
+// preemptPoint: called before every synchronisation operation (mutex, atomic, channel, WaitGroup) and after
+// a go statement. While the path has preemptions left (verifPreemptions) the solver-side decision tree
+// forks here over "go on" and "switch to any other goroutine that can run": the interleaving becomes a
+// decision variable of the exploration, bounded in the CHESS manner by the number of preemptions.
+// Plain memory accesses are not preemption points: schedules that differ only in the order of
+// unsynchronised accesses (data races) are outside the bound.
+func (e *Engine) preemptPoint(g *G, what string) {
+	if e.preemptLeft <= 0 || g == nil || e.curG != g || g.state != gRunning {
+		return
+	}
+	var cands []*G
+	for _, o := range e.gs {
+		if o != g && o.ready() {
+			cands = append(cands, o)
+		}
+	}
+	if len(cands) == 0 {
+		return
+	}
+	k := e.choose(len(cands) + 1)
+	if k == 0 {
+		return
+	}
+	next := cands[k-1]
+	e.preemptLeft--
+	e.schedTrace = append(e.schedTrace, fmt.Sprintf("g%d preempted before %s at %s, g%d runs", g.id, what, e.where(g), next.id))
+	g.state = gRunnable
+	e.resume(next)
+	e.park(g)
+}
+
 // blockUntil parks g until cond holds.
 func (e *Engine) blockUntil(g *G, why string, cond func() bool) {
 	if cond() {
@@ -363,6 +394,7 @@ func (e *Engine) perform(self *G, c selCase) (value, bool) {
 
 // selectOp implements select over cases; returns chosen index (-1 for default).
 func (e *Engine) selectOp(g *G, cases []selCase, hasDefault bool, why string) (int, value, bool) {
+	e.preemptPoint(g, "channel operation")
 	var ready []int
 	for i, c := range cases {
 		if e.caseReady(g, c) {
